@@ -52,7 +52,9 @@ class FullEngine(Engine):
             return T.Len(p.st.elems(v.ref)) > 0
         if isinstance(v, VStr):
             return z3.Length(v.term) > 0
-        if isinstance(v, (VCls, VFunc, VBuiltin, VModule)):
+        if isinstance(v, VCls):
+            return v.term != T.NONECLS          # an optional class argument: None is falsy, every class is truthy
+        if isinstance(v, (VFunc, VBuiltin, VModule, VMeta)):
             return z3.BoolVal(True)
         if isinstance(v, VConst):
             return z3.BoolVal(bool(v.value))
@@ -151,6 +153,10 @@ class FullEngine(Engine):
             return [(p, VBuiltin(n))]
         if n in EXC_PARENTS:
             return [(p, VConst(("excclass", n)))]
+        if n == "hashfunc" and self.cur is not None and self.cur.qualname == "_SemiSingleton.__call__" and isinstance(p.env.get("cls"), VCls):
+            # closure variable of semi_singleton_metaclass: the key function this metaclass was built with (= the value of
+            # its class attribute _SemiSingleton__semisingleton_hashfunc, assigned from the same variable in the class body)
+            return [(p, VCallback(T.hf_of(T.meta_of(p.env["cls"].term)), "hf"))]
         raise Unsupported(f"name {n}")
 
     def module_member(self, mod, n):
@@ -351,7 +357,19 @@ class FullEngine(Engine):
             return bind(self.eval(e.comparators[0], q), lambda r, b: [(r, VBool(self.compare(op, a, b, r)))])
         return bind(self.eval(e.left, p), k1)
 
+    def key_ref(self, v):
+        """a value used as dictionary key: references, classes (as values) and 2-tuples of those"""
+        if isinstance(v, VCls):
+            return T.cls_ref(v.term)
+        if isinstance(v, VPyTuple) and len(v.items) == 2:
+            a, b = self.key_ref(v.items[0]), self.key_ref(v.items[1])
+            if a is not None and b is not None:
+                return T.mkpair(a, b)
+        return self.ref_of(v)
+
     def ref_of(self, v):
+        if isinstance(v, VMeta):
+            return v.term
         if isinstance(v, (VRef, VCallback, VAttrs)):
             return v.term
         if isinstance(v, (VList, VSet, VDict)):
@@ -413,6 +431,12 @@ class FullEngine(Engine):
             owner = cont.value[1]
             d, u, f = self.memo_key(x)
             return p.st.memo_has(owner, d, u, f)
+        if isinstance(cont, VConst) and cont.value == ("tmap",) and isinstance(x, VCls):
+            return p.st.read("tmap_has", x.term)
+        if isinstance(cont, VConst) and isinstance(cont.value, tuple) and cont.value[0] == "smap":
+            k = self.key_ref(x)
+            if k is not None:
+                return p.st.read("smap_has", cont.value[1], k)
         raise Unsupported(f"`in` on {type(cont).__name__}")
 
     def memo_key(self, key):
@@ -447,6 +471,12 @@ class FullEngine(Engine):
             return [(p, self.module_member(mod, attr))]
         if isinstance(recv, VCls):
             return self.load_class_attr(recv, attr, p)
+        if isinstance(recv, VMeta):
+            if attr == "_SemiSingleton__semisingleton_instance_map":
+                return [(p, VConst(("smap", recv.term)))]
+            if attr == "_SemiSingleton__semisingleton_hashfunc":
+                return [(p, VCallback(T.hf_of(recv.term), "hf"))]
+            raise Unsupported(f"metaclass attribute {attr}")
         if isinstance(recv, (VList, VSet, VDict, VOwned, VSeq, VGlobalDict, VStr, VOpaque, VAttrs)):
             return [(p, VBound(recv, attr))]
         if isinstance(recv, VConst) and isinstance(recv.value, tuple) and recv.value[0] in ("memo", "dyndict", "pydict"):
@@ -552,6 +582,12 @@ class FullEngine(Engine):
         raise Unsupported(f"class attribute {owner}.{attr}")
 
     def load_class_attr(self, recv: VCls, attr, p):
+        if attr == "_TrueSingleton__singleton_instances":
+            return [(p, VConst(("tmap",)))]
+        if attr == "_SemiSingleton__semisingleton_instance_map":
+            return [(p, VConst(("smap", T.meta_of(recv.term))))]
+        if attr == "_SemiSingleton__semisingleton_hashfunc":
+            return [(p, VCallback(T.hf_of(T.meta_of(recv.term)), "hf"))]
         if recv.pyname and recv.pyname in self.repo.classes:
             mem = self.repo.find_member(recv.pyname, attr)
             if mem and mem[0] == "classattr":
@@ -567,6 +603,13 @@ class FullEngine(Engine):
         return qn
 
     def store_attr(self, recv: V, attr: str, v: V, p: Path):
+        if isinstance(recv, VCls) and attr == "_TrueSingleton__singleton_instances" and isinstance(v, VDict):
+            p.st.write_where("tmap_has", lambda a: (z3.BoolVal(True), z3.BoolVal(False)))      # rebinding the registry to {}
+            return [(p, None)]
+        if isinstance(recv, (VCls, VMeta)) and attr == "_SemiSingleton__semisingleton_instance_map" and isinstance(v, VDict):
+            M = T.meta_of(recv.term) if isinstance(recv, VCls) else recv.term
+            p.st.write_where("smap_has", lambda a, M=M: (T.eq(a[0], M), z3.BoolVal(False)))
+            return [(p, None)]
         if isinstance(recv, VCls):
             if recv.pyname == "Vertex" and attr == "NEIGHBOR_CACHING" and isinstance(v, VBool):
                 p.st.write("CACHING", (), v.term)
@@ -796,6 +839,20 @@ class FullEngine(Engine):
                 else:
                     out.append((q, VRaise("KeyError")))
             return out
+        if isinstance(recv, VConst) and recv.value == ("tmap",) and isinstance(idx, VCls):
+            out = []
+            for (q, side) in self.fork(p, p.st.read("tmap_has", idx.term), "tmap"):
+                out.append((q, VRef(q.st.read("tmap_val", idx.term), None, "opaque")) if side else (q, VRaise("KeyError")))
+            return out
+        if isinstance(recv, VConst) and isinstance(recv.value, tuple) and recv.value[0] == "smap":
+            k = self.key_ref(idx)
+            if k is None:
+                raise Unsupported("registry key")
+            M = recv.value[1]
+            out = []
+            for (q, side) in self.fork(p, p.st.read("smap_has", M, k), "smap"):
+                out.append((q, VRef(q.st.read("smap_val", M, k), None, "opaque")) if side else (q, VRaise("KeyError")))
+            return out
         if isinstance(recv, VRef) and isinstance(idx, VStr):
             # BaseObject.__getitem__ -> getattr
             return self.call_contract("BaseObject.__getitem__", {"self": recv, "name": idx}, p)
@@ -833,6 +890,20 @@ class FullEngine(Engine):
             p.st.write("memo_has", (owner, d, u, f), z3.BoolVal(True))
             p.st.write("memo_val", (owner, d, u, f), v.ref)
             return [(p, None)]
+        if isinstance(recv, VConst) and recv.value == ("tmap",) and isinstance(idx, VCls):
+            r_ = self.ref_of(v)
+            if r_ is None:
+                raise Unsupported("registry value")
+            p.st.write("tmap_has", (idx.term,), z3.BoolVal(True))
+            p.st.write("tmap_val", (idx.term,), r_)
+            return [(p, None)]
+        if isinstance(recv, VConst) and isinstance(recv.value, tuple) and recv.value[0] == "smap":
+            k, r_ = self.key_ref(idx), self.ref_of(v)
+            if k is None or r_ is None:
+                raise Unsupported("registry key / value")
+            p.st.write("smap_has", (recv.value[1], k), z3.BoolVal(True))
+            p.st.write("smap_val", (recv.value[1], k), r_)
+            return [(p, None)]
         if isinstance(recv, VDict):
             k = self.ref_of(idx)
             if k is None:
@@ -845,6 +916,28 @@ class FullEngine(Engine):
         raise Unsupported(f"item store on {type(recv).__name__}")
 
     def del_item(self, recv, idx, p):
+        if isinstance(recv, VConst) and recv.value == ("tmap",) and isinstance(idx, VCls):
+            out = []
+            for (q, side) in self.fork(p, p.st.read("tmap_has", idx.term), "deltmap"):
+                if side:
+                    q.st.write("tmap_has", (idx.term,), z3.BoolVal(False))
+                    out.append((q, None))
+                else:
+                    out.append((q, ("raise", VRaise("KeyError"))))
+            return out
+        if isinstance(recv, VConst) and isinstance(recv.value, tuple) and recv.value[0] == "smap":
+            k = self.key_ref(idx)
+            if k is None:
+                raise Unsupported("registry key")
+            M = recv.value[1]
+            out = []
+            for (q, side) in self.fork(p, p.st.read("smap_has", M, k), "delsmap"):
+                if side:
+                    q.st.write("smap_has", (M, k), z3.BoolVal(False))
+                    out.append((q, None))
+                else:
+                    out.append((q, ("raise", VRaise("KeyError"))))
+            return out
         if isinstance(recv, VList) and isinstance(idx, VInt):
             seq = p.st.elems(recv.ref)
             i = idx.term
@@ -882,6 +975,29 @@ class FullEngine(Engine):
     # ------------------------------------------------------------------ calls
     def ev_Call(self, e, p: Path):
         f = e.func
+        # super(Meta, cls).__call__(*args, **kwargs): type.__call__ - allocate an instance of cls and run its __init__ once (A9)
+        if (isinstance(f, ast.Attribute) and f.attr == "__call__" and isinstance(f.value, ast.Call)
+                and isinstance(f.value.func, ast.Name) and f.value.func.id == "super" and len(f.value.args) == 2):
+            clsv = p.env.get(ast.unparse(f.value.args[1]))
+            if not isinstance(clsv, VCls):
+                raise Unsupported("type.__call__ on a non-class")
+            star = [a for a in e.args if isinstance(a, ast.Starred)]
+            dstar = [k for k in e.keywords if k.arg is None]
+            if len(star) != 1 or len(dstar) != 1 or len(e.args) != 1 or len(e.keywords) != 1:
+                raise Unsupported("type.__call__ with re-packed arguments")
+            a_, k_ = p.env.get(ast.unparse(star[0].value)), p.env.get(ast.unparse(dstar[0].value))
+            if not (isinstance(a_, VRef) and isinstance(k_, VRef)):
+                raise Unsupported("argument packs")
+            out = []
+            for (q, side) in self.fork(p, T.init_raises(clsv.term, a_.term, k_.term), "init-raises"):
+                if side:
+                    out.append((q, VRaise("UserExc", "__init__ raised")))      # the user's __init__ may raise: nothing is registered
+                else:
+                    r = self.alloc(q, clsv.term, "obj", "instance")
+                    q.st.write("init_count", r, z3.IntVal(1))
+                    q.st.write("init_args", r, T.mkpair(a_.term, k_.term))
+                    out.append((q, VRef(r, None, "opaque")))
+            return out
         # super().m(...)
         if isinstance(f, ast.Attribute) and isinstance(f.value, ast.Call) and isinstance(f.value.func, ast.Name) \
                 and f.value.func.id == "super":
@@ -967,6 +1083,8 @@ class FullEngine(Engine):
     def call_external(self, dotted, args, kw, p):
         if dotted == "uuid.uuid4" and not args:
             return [(p, VConst(("uuid4",)))]
+        if dotted == "json.dumps" and len(args) == 1 and isinstance(args[0], VRef):
+            return [(p, VRef(T.jsonk(args[0].term), None, "opaque"))]
         if dotted == "pyvis.network.Network":
             return [(p.copy(), VRaise("Exception", "pyvis")), (p, VOpaque("ext:pyvis.network.Network"))]
         if dotted == "collections.deque" and len(args) == 1:
@@ -1152,7 +1270,7 @@ class FullEngine(Engine):
 
     def typing_facts(self, prm: Param, v: V):
         ty = prm.ty
-        if ty in ("int", "bool", "str", "any", "attrs") or ty.startswith("cb:") or ty.startswith("iter") or ty.startswith("dict") or ty.startswith("list:"):
+        if ty in ("int", "bool", "str", "any", "attrs", "cls", "clsopt", "pack") or ty.startswith("cb:") or ty.startswith("iter") or ty.startswith("dict") or ty.startswith("list:"):
             return []
         if ty.startswith("cls<="):
             if isinstance(v, VCls):
@@ -1224,6 +1342,9 @@ class FullEngine(Engine):
             else:
                 paths.append(q)
         for q in paths:
+            if cb.family == "hf" and len(refs) == 2:
+                out.append((q, VRef(T.cbv2(cb.term, refs[0], refs[1]), None, "opaque")))   # key function: deterministic (A7)
+                continue
             if len(refs) == 1:
                 rz, tv, val = T.cb1_raises(cb.term, refs[0]), T.cb1(cb.term, refs[0]), T.cbv1(cb.term, refs[0])
             elif len(refs) == 2:
@@ -1328,6 +1449,8 @@ class FullEngine(Engine):
                 return [(p, VInt(T.Len(p.st.elems(a.ref))))]
         if name == "type" and len(args) == 1 and isinstance(args[0], VRef):
             return [(p, VCls(T.cls_of(args[0].term), None))]
+        if name == "type" and len(args) == 1 and isinstance(args[0], VCls):
+            return [(p, VMeta(T.meta_of(args[0].term)))]
         if name == "issubclass" and len(args) == 2 and isinstance(args[0], VCls) and isinstance(args[1], VCls):
             return [(p, VBool(T.sub(args[0].term, args[1].term)))]
         if name == "isinstance" and len(args) == 2:
